@@ -828,11 +828,11 @@ package ice
 //@   requires[C04,C10] data != nil
 //@ func (*Segment).loadFields
 //@   constructs s
-//@   requires[C04,C10] s != nil && s.footer != nil && s.data != nil && s.fieldFSTs != nil && s.fieldsMap != nil
-//@   requires[C04,C10] len(s.dictLocs) == 0 && len(s.fieldsInv) == 0 && forallstr(k, s.fieldsMap[k] == 0)
-//@   loop 0 invariant[C04,C10] s.footer != nil && s.data != nil && s.fieldFSTs != nil && s.fieldsMap != nil
-//@   loop 0 invariant[C04,C10] len(s.dictLocs) == fieldID && len(s.fieldsInv) == fieldID && forallstr(k, s.fieldsMap[k] <= len(s.fieldsInv))
-//@   ensures[C04,C10] @segment_invariant_established result0 == nil ==> s.footer != nil && s.data != nil && s.fieldFSTs != nil && len(s.dictLocs) == len(s.fieldsInv) && forallstr(k, s.fieldsMap[k] <= len(s.fieldsInv))
+//@   requires[C04,C10,C19] s != nil && s.footer != nil && s.data != nil && s.fieldFSTs != nil && s.fieldsMap != nil
+//@   requires[C04,C10,C19] len(s.dictLocs) == 0 && len(s.fieldsInv) == 0 && forallstr(k, s.fieldsMap[k] == 0)
+//@   loop 0 invariant[C04,C10,C19] s.footer != nil && s.data != nil && s.fieldFSTs != nil && s.fieldsMap != nil
+//@   loop 0 invariant[C04,C10,C19] len(s.dictLocs) == fieldID && len(s.fieldsInv) == fieldID && forallstr(k, s.fieldsMap[k] <= len(s.fieldsInv))
+//@   ensures[C04,C10,C19] @segment_invariant_established result0 == nil ==> s.footer != nil && s.data != nil && s.fieldFSTs != nil && len(s.dictLocs) == len(s.fieldsInv) && forallstr(k, s.fieldsMap[k] <= len(s.fieldsInv))
 //@
 //@ // ---- the merge input contract enters at Merger.WriteTo and is carried down (C03) ----
 //@ func mergeSegmentBasesWriter
@@ -1681,3 +1681,48 @@ package ice
 //@   requires[C02,C08] m != nil
 //@   loop 0 invariant[C02,C08] fresh(values) && len(values) == rangeindex + 1 && rangeindex < len(m.lowIdxs) && forall(k, 0, len(values), values[k] == m.currVs[m.lowIdxs[k]])
 //@   ensures[C02,C08] @values_parallel_to_indices lowIdxs == m.lowIdxs && len(values) == len(m.lowIdxs) && forall(k, 0, len(values), values[k] == m.currVs[m.lowIdxs[k]])
+//@
+//@ // ---- C18/C08/C10: the postings record. Three uvarints (freq/norm offset, location offset
+//@ // delta, bitmap length) followed at once by the bitmap: the bitmap is read at the record's
+//@ // offset plus the encoded sizes of exactly those three uvarints, with the third one's value as
+//@ // its length (writePostings lays the record out in this order) ----
+//@ ghostvar pr0 int
+//@ ghostvar pr1 int
+//@ ghostvar pr2 int
+//@ ghostvar prlen int
+//@ ghostvar prv0 int
+//@ func (*PostingsList).read
+//@   at call:encoding/binary.Uvarint#0 ghostset pr0 = result1
+//@   at call:encoding/binary.Uvarint#1 ghostset pr1 = result1
+//@   at call:encoding/binary.Uvarint#2 ghostset pr2 = result1
+//@   at call:encoding/binary.Uvarint#2 ghostset prlen = result0
+//@   at call:encoding/binary.Uvarint#0 ghostset prv0 = result0
+//@   at call:(*github.com/blugelabs/bluge_segment_api.Data).Read#1 lemma[C08,C10,C18] n == pr0 && p.freqOffset == prv0
+//@   at call:(*github.com/blugelabs/bluge_segment_api.Data).Read#2 lemma[C08,C10,C18] n == pr0 + pr1
+//@   at call:(*github.com/blugelabs/bluge_segment_api.Data).Read#3 lemma[C08,C10,C18] n == pr0 + pr1 + pr2 && postingsLen == prlen
+//@   at call:(*github.com/RoaringBitmap/roaring.Bitmap).FromBuffer#0 lemma[C08,C10,C18] arr(roaringBytes) == arr(roaringData) && off(roaringBytes) == off(roaringData) && len(roaringBytes) == len(roaringData)
+//@   at call:(*github.com/blugelabs/bluge_segment_api.Data).Read#3 lemma[C08,C10,C18] result1 == nil ==> len(result0) == prlen && seqeq(contents(result0), off(result0), dbytes(d.sb.data), postingsOffset + pr0 + pr1 + pr2, prlen)
+//@
+//@ // ---- C04: loading fails only when the storage fails (or, for the footer, when the image is
+//@ // too short or carries another format version): no well-formed image is turned away ----
+//@ func parseFooter
+//@   ensures[C04,C10] @every_well_formed_footer_is_accepted !rdfailed && dlen(data) >= 44 && be32(dbytes(data), dlen(data) - 8) == 2 ==> result1 == nil
+//@ func (*Segment).loadFields
+//@   ensures[C04,C10] @fails_only_when_storage_fails !rdfailed ==> result0 == nil
+//@ func (*Segment).loadStoredFieldChunk
+//@   ensures[C04,C10] @fails_only_when_storage_fails !rdfailed ==> result0 == nil
+//@
+//@ // ---- C06: a document's record is always cut out of its block as the meta section followed by
+//@ // the data section, with the lengths the record header gives — also when one of them is empty
+//@ // (a document whose stored values are all empty has meta triples and no data) ----
+//@ ghostvar so0 int
+//@ ghostvar so1 int
+//@ ghostvar so2 int
+//@ ghostvar so3 int
+//@ func (*Segment).getDocStoredMetaAndUnCompressed
+//@   at call:(*Segment).getDocStoredOffsets#0 ghostset so0 = result1
+//@   at call:(*Segment).getDocStoredOffsets#0 ghostset so1 = result2
+//@   at call:(*Segment).getDocStoredOffsets#0 ghostset so2 = result3
+//@   at call:(*Segment).getDocStoredOffsets#0 ghostset so3 = result4
+//@   ensures[C06,C10] @record_cut_as_meta_then_data err == nil ==> arr(meta) == arr(uncompressed) && off(meta) == off(uncompressed) + so0 + so1 && len(meta) == so2
+//@   ensures[C06,C10] @record_cut_as_meta_then_data err == nil ==> arr(data) == arr(uncompressed) && off(data) == off(uncompressed) + so0 + so1 + so2 && len(data) == so3
